@@ -35,7 +35,7 @@ RULE = ("each run is a history of 1-12 operations drawn from get (with/without q
         "certificate, redirect or store mutation was exercised")
 PROBES = ["cert_changed_detected", "unreadable_cert_presented", "redirect_hop_checked",
           "first_use_pinned", "pinned_match", "import_applied", "revoke_then_refetch", "tofu_off",
-          "upload_checked", "ec_cert"]
+          "upload_checked", "ec_cert", "first_use_on_failing_endpoint", "overlapping_first_use"]
 COMPONENTS = {
     "real": ["nauyaca.client.session.GeminiClient (get/upload/delete, redirects)",
              "nauyaca.client.protocol", "nauyaca.security.tofu.TOFUDatabase on a real sqlite file",
@@ -65,7 +65,7 @@ def run_one(ch):
     nops = 1 + ch.choose("nops", 12)
     model = {}
     st = {"hist": [], "changed": 0, "unreadable": 0, "redir": 0, "first": 0, "match": 0,
-          "import": 0, "mutation": 0, "upload": 0, "refetch": 0}
+          "import": 0, "mutation": 0, "upload": 0, "refetch": 0, "failing": 0, "concurrent": 0}
     revoked = set()
 
     def endpoint(label):
@@ -94,7 +94,7 @@ def run_one(ch):
                               tofu_db_path=pathlib.Path(w.db_path))
         db = client.tofu_db if tofu_on else TOFUDatabase(pathlib.Path(w.db_path))
         for i in range(nops):
-            op = ch.choose("op", 11, [10, 4, 2, 2, 2, 1, 1, 3, 8, 4, 1])
+            op = ch.choose("op", 13, [10, 4, 2, 2, 2, 1, 1, 3, 8, 4, 1, 3, 3])
             if op in (0, 1, 2):
                 key = endpoint("ep")
                 kind = ["get", "upload", "delete"][op]
@@ -124,6 +124,9 @@ def run_one(ch):
                             break
                         else:
                             st["match"] += 1
+                    if w.fail_mode.get(cur):
+                        expect = ("fail", cur)      # verified/pinned, but no response comes
+                        break
                     tgt = w.redirect.get(cur)
                     if kind == "get" and tgt is not None and hops < 4:
                         hops += 1
@@ -148,7 +151,7 @@ def run_one(ch):
                 except Exception as e:  # noqa
                     got = ("err", e)
                 # pins written on the way are durable even if a later hop fails
-                if expect[0] in ("resp", "redirect-limit"):
+                if expect[0] in ("resp", "redirect-limit", "fail"):
                     model.clear()
                     model.update(pend)
                 elif expect[0] in ("changed", "unreadable"):
@@ -180,6 +183,11 @@ def run_one(ch):
                                     f"{expect[1][0]}:{expect[1][1]} presented a certificate the "
                                     f"client cannot parse; the call returned a response instead of "
                                     f"refusing", **ctx)
+                elif expect[0] == "fail":
+                    st["failing"] += 1
+                    if got[0] == "resp":
+                        res.violate("C03/wrong-response/" + kind,
+                                    "the endpoint never answers, yet a response was returned", **ctx)
                 elif expect[0] == "resp":
                     ek = expect[1]
                     if got[0] != "resp":
@@ -264,6 +272,52 @@ def run_one(ch):
                 w.redirect[key] = tgt
                 st["hist"].append(f"env: {key[0]}:{key[1]} redirects to {tgt}")
                 continue
+            elif op == 11:
+                key = endpoint("fm")
+                w.fail_mode[key] = ch.pick("failmode", [None, "close", "rst", "stall"], [2, 2, 2, 1])
+                st["hist"].append(f"env: {key[0]}:{key[1]} failure mode {w.fail_mode[key]}")
+                continue
+            elif op == 12 and tofu_on:
+                # two overlapping fetches of one endpoint that presents c1 to the first
+                # and c2 to the second connection
+                key = endpoint("cc")
+                if w.redirect.get(key) is not None or w.fail_mode.get(key):
+                    continue
+                c1 = ch.pick("cc1", fx.SERVER_CERTS)
+                c2 = ch.pick("cc2", fx.SERVER_CERTS)
+                w.servers[key].cert_queue = [c1, c2]
+                st["hist"].append(f"concurrent 2x get {url_of(key)} presenting {c1},{c2}")
+                st["concurrent"] += 1
+
+                async def one():
+                    try:
+                        r = await client.get(url_of(key, "/x"))
+                        return ("resp", r.status)
+                    except CertificateChangedError:
+                        return ("changed",)
+                    except Exception as e:  # noqa
+                        return ("err", repr(e)[:100])
+                outs = await asyncio.gather(one(), one())
+                w.servers[key].cert_queue = []
+                real = read_table(w.db_path)
+                pin0 = model.get(key)
+                nresp = sum(1 for o in outs if o[0] == "resp")
+                ctx = dict(step=st["hist"][-1], outcomes=outs, pin_before=pin0,
+                           pin_after=real.get(key), history=st["hist"][-8:])
+                pin1 = real.get(key)
+                want = sum(1 for c in (c1, c2) if fx.fp(c) == (pin0 or pin1))
+                if pin1 is None or (pin0 is not None and pin1 != pin0) or \
+                        pin1 not in (fx.fp(c1), fx.fp(c2), pin0):
+                    res.violate("C03/concurrent-first-use-pin-wrong",
+                                "after two overlapping fetches the pin is missing, changed or "
+                                "belongs to neither presented certificate", **ctx)
+                elif nresp != want:
+                    res.violate("C03/concurrent-connections-accepted-with-different-certificates",
+                                f"{nresp} of two overlapping fetches succeeded, but only {want} "
+                                f"presented the certificate that is pinned", **ctx)
+                model.clear()
+                model.update(real)
+                continue
             else:
                 st["hist"].append("noop")
                 continue
@@ -273,7 +327,8 @@ def run_one(ch):
 
     st_map = {"cert_changed_detected": "changed", "unreadable_cert_presented": "unreadable",
               "redirect_hop_checked": "redir", "first_use_pinned": "first", "pinned_match": "match",
-              "import_applied": "import", "upload_checked": "upload", "revoke_then_refetch": "refetch"}
+              "import_applied": "import", "upload_checked": "upload", "revoke_then_refetch": "refetch",
+              "first_use_on_failing_endpoint": "failing", "overlapping_first_use": "concurrent"}
     for probe, k in st_map.items():
         if st[k]:
             res.stats[probe] += 1
@@ -286,7 +341,7 @@ def run_one(ch):
     kinds = [h.split(" ")[0] for h in st["hist"]]
     res.signature = hashlib.sha256(repr((kinds, tofu_on, st["changed"], st["unreadable"],
                                          st["redir"])).encode()).hexdigest()[:16]
-    res.digest = w.sim.digest()
+    res.digest = w.sim.digest(sizes=not w.use_ec)
     res.nontrivial = bool(st["changed"] or st["unreadable"] or st["redir"] or st["mutation"])
     res.sample = {"tofu": tofu_on, "history": st["hist"][:12]}
     return res
